@@ -34,7 +34,10 @@ func VH_C17_tar() {
 		fs.entries = append(fs.entries, e)
 		return e
 	}
-	add("d", clsDir)
+	d := add("d", clsDir)
+	if v.Bool("xattr-d") {
+		d.stat.Xattrs = map[string][]byte{"user.a": v.Bytes("xa", 1)} // another key than the file's
+	}
 	f := add("d/f", clsFile)
 	f.data = v.Bytes("data", v.Choose("size", maxb+1))
 	f.stat.Size = int64(len(f.data))
